@@ -362,7 +362,10 @@ def judge(res, sig, self_kind, args, kwargs, ignore, expected, expected_full, in
         if ignore and base_ok:
             sgn = "filter_args:ignore-list-removes-wrong-entries"
         else:
-            sgn = classify(sig, self_kind, impl, expected)
+            try:
+                sgn = classify(sig, self_kind, impl, expected)
+            except Exception:  # noqa: BLE001  (an implementation result the classifier cannot parse is still a failure)
+                sgn = "filter_args:wrong-binding"
         res.fail(sgn, case, f"Python binds {expected}; filter_args gives {impl}")
 
 
